@@ -310,7 +310,7 @@ def part_misc(ctx):
     by = {}
     for c in lines:
         by.setdefault(c["mode"], []).append(c)
-    ctx.require(len(by.get("bind", [])) >= 10 and len(by.get("mount", [])) > 3000 and len(by.get("eff", [])) > 3000
+    ctx.require(len(by.get("bind", [])) >= 10 and len(by.get("mount", [])) > 600 and len(by.get("eff", [])) > 3000
                 and len(by.get("hw", [])) == 96, "case counts %s" % {k: len(v) for k, v in by.items()})
     for c in by["bind"]:
         ctx.case(("parse", "bind", json.dumps(c["fields"])))
@@ -398,10 +398,16 @@ def delta(before, after, skips):
     return added, removed
 
 
-def same_dec(exp, found, cls=""):
+def norm_found(cls, found):
+    """A link made in the container for a read-only remote-to-local copy is judged by its effect (content clause,
+    it only resolves locally for identity binds), not by the command: it counts as the container-side copy."""
     if cls == "read-only-link-made-in-container" and len(found) == 1 and found[0]["k"] == "ctrlink":
-        # the link is judged by its effect (content clause), not by the command
-        found = [dict(found[0], k="ctrcopy")]
+        return [dict(found[0], k="ctrcopy")]
+    return found
+
+
+def same_dec(exp, found, cls=""):
+    found = norm_found(cls, found)
     if exp["k"] == "stream":
         return len(found) == 1 and found[0]["k"] == "stream"
     if len(found) != 1 or found[0]["k"] != exp["k"]:
@@ -562,6 +568,7 @@ def copy_event(trace, last, found, streams, events, rig):
         if ev.get("e") == "cli" and "argv" in ev and ev["argv"][:1] == ["exec"]:
             words = [x for x in ev["argv"][1:] if not x.startswith("-")]
             trace.append({"e": "cli", "cmd": "exec", "mine": bool(words) and words[0] == (rig.conn.containerId or ""), "mode": "cmd"})
+    found = norm_found("read-only-link-made-in-container" if last["op"] == "r2l" and last["ro"] else "", found)
     f = found[0] if found else {"k": "none"}
     trace.append({"e": "copy", "op": last["op"], "src": last["src"], "dst": last["dst"], "ro": last["ro"],
                   "dec": {"k": f["k"], "a": list(f.get("a", last["dec"]["a"])), "b": list(f.get("b", last["dec"]["b"]))},
@@ -591,11 +598,14 @@ def part_model_and_copies(ctx):
     for o in ops:
         groups.setdefault((o["sc"], o["cuser"]), []).append(o["last"])
     rng = ctx.rng("copies")
-    per = ctx.pick(1, 3)
+    per = ctx.pick(1, 2)
     traces = []
     total = agree = 0
     strata_all = set()
+    names = sorted({sc for sc, _ in groups})
     for (sc, cuser), lasts in sorted(groups.items()):
+        if ctx.quick and sc not in ("mixed", "nested") and cuser != ((names.index(sc) + ctx.seed) % 2 == 0):
+            continue        # quick: one user flag per scenario (alternating with the seed), both for two of them
         T = scen[sc]["table"]
         lasts = sorted(lasts, key=lambda l: json.dumps(l, sort_keys=True))
         by = {}
@@ -888,6 +898,7 @@ def validate_traces(ctx, traces):
 # ------------------------------------------------------------------------------------------------
 def run(ctx):
     os.chdir(ctx.scratch("cwd"))        # _prepare_volumes would create relative directories in the cwd
+    ctx.exhaustive = False
     ctx.rule = ("TLC enumerates mount tables x paths, parser texts, location assignments, life-cycle behaviours and every "
                 "specified single copy of eight mount scenarios; each is put to the real functions / the real DockerConnector "
                 "over a fake docker CLI with mount-namespace containers; a copy case is non-trivial (all are: source exists, "
